@@ -49,9 +49,8 @@ func c04Rec(t time.Time) proj.Day {
 		RH: 40 + float64(u%50), Rad: 2 + float64(u%23)*0.5, Wind: 0.75 + float64(u%16)*0.25,
 		Sun: float64(u%25) * 0.5, Verd: 0.5 + float64(u%31)*0.25,
 	}
-	if u%5 == 0 {
-		d.Precip = float64(u%7) * 0.5
-	}
+	// rain on six days out of seven (so that month ends, leap days and year changes carry rain in some year)
+	d.Precip = float64(u%7) * 0.5
 	return d
 }
 
@@ -108,6 +107,10 @@ func c04Specs(tier string, seed int) []c04Spec {
 			}
 			// ---- normalisations on covered input
 			with(func(s *c04Spec) { s.Kind = "preco"; s.Preco = true })
+			// ... with the series (and the window) ending inside each of the three years
+			for k := 0; k <= 2; k++ {
+				with(func(s *c04Spec) { s.Kind = "preco-series-ends-mid-year"; s.Preco = true; s.SimEnd = iso(y+k, 8, 31); s.To = iso(y+k, 10, 17) })
+			}
 			with(func(s *c04Spec) { s.Kind = "low-wind"; s.LowWind = []string{iso(y, 5, 5), iso(y, 12, 31), iso(y+1, 1, 1), iso(y+1, 7, 7), iso(y+2, 6, 30)} })
 			with(func(s *c04Spec) { s.Kind = "minmax-swapped"; s.Swapped = []string{iso(y, 5, 6), iso(y, 12, 31), iso(y+1, 1, 1), iso(y+1, 8, 8), iso(y+2, 2, 2)} })
 			for _, col := range []string{"sun", "verd"} {
